@@ -196,12 +196,17 @@ class AsyncForwardHTTPConnection(AsyncConnectionInterface):
             port=self._proxy_origin.port,
             target=bytes(request.url),
         )
+        # The 'target' extension has already been applied to the request URL,
+        # that the absolute-form target is built from.
+        extensions = {
+            key: value for key, value in request.extensions.items() if key != "target"
+        }
         proxy_request = Request(
             method=request.method,
             url=url,
             headers=headers,
             content=request.stream,
-            extensions=request.extensions,
+            extensions=extensions,
         )
         return await self._connection.handle_async_request(proxy_request)
 
